@@ -166,6 +166,7 @@ Ltac wait_loop_tac d :=
       try (apply IH; intros; cbn; apply Hl);
       rewrite ?crc_Z, ?cidN_cidZ;
       (destruct (cid_eqb (c, i) CID_CRC_ERROR); cbn; [apply IH; intros; cbn; apply Hl|]);
+      repeat (progress (cbn; rewrite ?crc_Z, ?cidN_cidZ));
       let name := fresh "name" in let rk := fresh "rk" in
       (destruct (reg_lookup _ _) as [[name rk]|]; cbn; [|apply IH; intros; cbn; apply Hl]);
       let Hb := fresh "Hb" in
@@ -204,36 +205,27 @@ Ltac zn :=
 Definition acknak_val (a : acknak) : pyval :=
   match a with IsAck => PStr "ACK" | IsNak => PStr "NAK" | IsOther => PNone end.
 
+(* the three classifiers: case analysis on the atomic comparisons (class, id, the named fields), whatever order and nesting
+   the code tests them in; impossible combinations are closed by arithmetic *)
+Ltac check_step :=
+  first [ progress zn | progress cbn
+        | match goal with |- context [dec_getf ?d ?n] => destruct (dec_getf d n) as [[?z|?s]|] end
+        | match goal with |- context [(?a =? ?b)%N] => let H := fresh "Hc" in destruct (a =? b)%N eqn:H end
+        | match goal with |- context [(?a =? ?b)%Z] => let H := fresh "Hc" in destruct (a =? b)%Z eqn:H end ].
+Ltac check_tac :=
+  py_unfold; unfold cid_eqb, CID_ACK, CID_NAK, CID_MGA_ACK; cbn [fst snd]; repeat check_step; first [reflexivity | exfalso; lia].
+
 Lemma bridge_check_ack_nak fuel rq dd f (w : W) :
   g_check_ack_nak (E := E) fuel (PReq rq dd) (PFrame f) w = FRet (acknak_val (check_ack_nak (rq_cid rq) f)) w.
-Proof.
-  unfold g_check_ack_nak, check_ack_nak. py_unfold. cbn. zn.
-  change ((fst (rf_cid f) =? 5) && (snd (rf_cid f) =? 1)) with (cid_eqb (rf_cid f) CID_ACK).
-  change ((fst (rf_cid f) =? 5) && (snd (rf_cid f) =? 0)) with (cid_eqb (rf_cid f) CID_NAK).
-  destruct (cid_eqb (rf_cid f) CID_ACK).
-  - destruct (dec_getf (rf_dec f) "clsId") as [[c|s]|]; cbn; try reflexivity.
-    all: destruct (dec_getf (rf_dec f) "msgId") as [[i|s']|]; cbn; try reflexivity.
-    zn. destruct ((c =? Z.of_N (fst (rq_cid rq)))%Z && (i =? Z.of_N (snd (rq_cid rq)))%Z); reflexivity.
-  - destruct (cid_eqb (rf_cid f) CID_NAK); reflexivity.
-Qed.
+Proof. unfold g_check_ack_nak, check_ack_nak. check_tac. Qed.
 
 Lemma bridge_check_mga fuel rq dd f (w : W) :
   g_check_mga (E := E) fuel (PReq rq dd) (PFrame f) w = FRet (if check_mga f then PBool true else PNone) w.
-Proof.
-  unfold g_check_mga, check_mga. py_unfold. cbn. zn.
-  change ((fst (rf_cid f) =? 19) && (snd (rf_cid f) =? 96)) with (cid_eqb (rf_cid f) CID_MGA_ACK).
-  destruct (cid_eqb (rf_cid f) CID_MGA_ACK); [|reflexivity].
-  destruct (dec_getf (rf_dec f) "type") as [[t|s]|]; cbn; try reflexivity.
-  destruct (t =? _)%Z; reflexivity.
-Qed.
+Proof. unfold g_check_mga, check_mga. check_tac. Qed.
 
 Lemma bridge_check_poll fuel rq dd f (w : W) :
   g_check_poll (E := E) fuel (PReq rq dd) (PFrame f) w = FRet (if cid_eqb (rf_cid f) (rq_cid rq) then PBool true else PNone) w.
-Proof.
-  unfold g_check_poll. py_unfold. cbn. zn.
-  change ((fst (rf_cid f) =? fst (rq_cid rq)) && (snd (rf_cid f) =? snd (rq_cid rq))) with (cid_eqb (rf_cid f) (rq_cid rq)).
-  destruct (cid_eqb _ _); reflexivity.
-Qed.
+Proof. unfold g_check_poll. check_tac. Qed.
 
 Lemma bridge_send fuel rq payload (w : W) :
   g_send B fuel (PReq rq (Some payload)) w =
